@@ -1,12 +1,12 @@
 CONSTANTS
- Producers = {"p1","p2"}
+ Producers = {"p1","p2","p3","p4"}
  K = 2
- Shapes <- ShAll
- MaxFaults = 0
+ Shapes <- ShOk12
+ MaxFaults = 1
  MaxCrashes = 1
- MaxIdxLoss = 0
+ MaxIdxLoss = 1
  InlineAt = 0
- Interval = 1
+ Interval = 3
  MBs = {80}
  FixRestore = TRUE
  FixPublish = TRUE
@@ -23,6 +23,5 @@ CONSTANTS
  DevNoFlushOnAck = FALSE
 INIT Init
 NEXT Next
-VIEW View
 CHECK_DEADLOCK FALSE
-INVARIANTS C01_AckedDurable C02_Unique C02_Monotone C02_NoGap C02_BaseIsStored C05_Monotone C05_NotAhead C06_NoHide C06_NoReuse
+INVARIANTS EmitSched C01_AckedDurable C02_Unique C02_Monotone C02_NoGap C02_BaseIsStored C05_Monotone C05_NotAhead C06_NoHide C06_NoReuse
